@@ -15,7 +15,7 @@ import (
 	"github.com/sirupsen/logrus"
 
 	"github.com/taskctl/taskctl/internal/vh/common"
-	"github.com/taskctl/taskctl/internal/vrt"
+	"github.com/taskctl/taskctl/vrt"
 	"github.com/taskctl/taskctl/pkg/scheduler"
 	"github.com/taskctl/taskctl/pkg/task"
 )
